@@ -54,7 +54,7 @@ theorem scalar_ok_conv (n : Name) (v : Value) (h : scalarLeafOk n v = true) : sc
   by_cases h1 : n = "Boolean"
   · subst h1; cases v <;> simp_all
   by_cases h2 : n = "Int"
-  · subst h2; cases v <;> simp_all
+  · subst h2; cases v <;> simp_all [IntLit.intLiteralFitsI32_eq]
   by_cases h3 : n = "Float"
   · subst h3; cases v <;> simp_all
   by_cases h4 : n = "String"
